@@ -454,6 +454,39 @@ pub type Emit<'a> = &'a mut dyn FnMut(String) -> String;
 /// common `main`: `gen <family> <seed> <tier> <out>` | `replay <file>`.
 /// `generate` calls `emit(input_line)` for every case and gets the implementation's output back,
 /// so that histories can continue from the implementation's own post-state.
+static CASE_NO: std::sync::atomic::AtomicU64 = std::sync::atomic::AtomicU64::new(0);
+static CURRENT: std::sync::Mutex<String> = std::sync::Mutex::new(String::new());
+
+/// a case that does not return: a watchdog thread names the input (in `hang_file`, or on stdout) and exits with status 3
+fn start_watchdog(hang_file: Option<String>) {
+    let limit: u64 = std::env::var("VERIF_CASE_TIMEOUT").ok().and_then(|s| s.parse().ok()).unwrap_or(120);
+    if let Some(f) = &hang_file {
+        let _ = std::fs::remove_file(f);
+    }
+    std::thread::spawn(move || {
+        let (mut last, mut since) = (u64::MAX, std::time::Instant::now());
+        loop {
+            std::thread::sleep(std::time::Duration::from_millis(250));
+            let n = CASE_NO.load(std::sync::atomic::Ordering::Relaxed);
+            if n != last {
+                last = n;
+                since = std::time::Instant::now();
+            } else if since.elapsed().as_secs() >= limit {
+                let cur = CURRENT.lock().map(|g| g.clone()).unwrap_or_default();
+                if !cur.is_empty() {
+                    match &hang_file {
+                        Some(f) => {
+                            let _ = std::fs::write(f, format!("{}\n", cur));
+                        }
+                        None => println!("{} => <no result within {} s>", cur, limit),
+                    }
+                    std::process::exit(3);
+                }
+            }
+        }
+    });
+}
+
 pub fn harness_main(generate: fn(&str, u64, &str, Emit), exec: fn(&[&str]) -> String) {
     silence_panics();
     let args: Vec<String> = std::env::args().collect();
@@ -465,16 +498,34 @@ pub fn harness_main(generate: fn(&str, u64, &str, Emit), exec: fn(&[&str]) -> St
             let out = &args[5];
             let f = std::fs::File::create(out).expect("create out");
             let mut w = std::io::BufWriter::new(f);
+            start_watchdog(Some(format!("{}.hang", out)));
+            // a case that kills the process (abort, stack overflow): re-run with VERIF_TRACE=<file> to learn which input it was
+            let mut trace = std::env::var("VERIF_TRACE").ok().map(|p| std::fs::File::create(p).expect("create trace"));
             let mut emit = |l: String| -> String {
+                if let Ok(mut g) = CURRENT.lock() {
+                    g.clear();
+                    g.push_str(&l);
+                }
+                if let Some(t) = trace.as_mut() {
+                    use std::io::Seek;
+                    let _ = t.set_len(0);
+                    let _ = t.seek(std::io::SeekFrom::Start(0));
+                    let _ = writeln!(t, "{}", l);
+                }
                 let r = exec_line(&l, exec);
+                CASE_NO.fetch_add(1, std::sync::atomic::Ordering::Relaxed);
                 writeln!(w, "{} => {}", l, r).unwrap();
                 r
             };
             generate(fam, seed, tier, &mut emit);
+            if let Ok(mut g) = CURRENT.lock() {
+                g.clear();
+            }
             w.flush().unwrap();
         }
         Some("replay") => {
             let text = std::fs::read_to_string(&args[2]).expect("read replay");
+            start_watchdog(None);
             for l in text.lines() {
                 let l = l.trim();
                 if l.is_empty() || l.starts_with('#') {
@@ -487,7 +538,12 @@ pub fn harness_main(generate: fn(&str, u64, &str, Emit), exec: fn(&[&str]) -> St
                     toks[1] = DBG;
                 }
                 let input = toks.join(" ");
+                if let Ok(mut g) = CURRENT.lock() {
+                    g.clear();
+                    g.push_str(&input);
+                }
                 println!("{} => {}", input, exec_line(&input, exec));
+                CASE_NO.fetch_add(1, std::sync::atomic::Ordering::Relaxed);
             }
         }
         _ => {
